@@ -234,7 +234,13 @@ def every_node_is_an_op(chk: Check, R: str) -> None:
         if q in classes:
             chk.ok(R, q, where, 'in the Op hierarchy (charge via %s)' % om.eval_method(F, q))
         elif has_eval:
-            chk.bad(R, q, where, 'class with an eval method outside the Op hierarchy: its evaluation is never charged')
+            # a typing.Protocol / abstract stub describes the interface; nothing is ever an instance of it alone
+            evn = F.functions[F.find_method(q, om.EVAL)].node
+            stub = all(isinstance(st, (ast.Pass,)) or (isinstance(st, ast.Expr) and isinstance(st.value, ast.Constant)) for st in evn.body)
+            if stub and any(b.split('.')[-1] == 'Protocol' for b in F.ext_bases(q)):
+                chk.ok(R, q, where, 'a typing.Protocol with a stub eval: an interface description, never instantiated')
+            else:
+                chk.bad(R, q, where, 'class with an eval method outside the Op hierarchy: its evaluation is never charged')
     # 2. nodes built by the grammar actions
     for t in T.all():
         where = '%s:%d' % (g.module.rel, t.prod.line)
